@@ -12,6 +12,9 @@
 #include <variant>
 #include <tuple>
 #include <vector>
+#include <array>
+#include <tuple>
+#include <set>
 #include <string>
 #include <memory>
 #include <frg/optional.hpp>
@@ -363,7 +366,7 @@ void run_manual_box(Ctx &c) {
 void run_tuple(Ctx &c) {
 	auto &t = c.t;
 	int a = (int)t.pick(1000), b = (int)t.pick(1000), d = (int)t.pick(1000), e = (int)t.pick(1000), f = (int)t.pick(1000), g = (int)t.pick(1000);
-	unsigned which = t.pick(6);
+	unsigned which = t.pick(7);
 	c.op("tuple battery %u with (%d,%d,%d,%d,%d,%d)", which, a, b, d, e, f, g);
 	c.tagf("tuple-%u", which);
 	using T3 = frg::tuple<int, Tracked, int>;
@@ -443,6 +446,38 @@ void run_tuple(Ctx &c) {
 		VCHECK(c, "C17", &r2.get<0>() == &i1 && &r2.get<1>() == tr && r2.get<2>() == e && tr->get() == b, "tuple_cat(move(ref tuple)) moved from the referent or lost identity");
 		c.destroy(tr);
 		break; }
+	case 6: {   // converting construction (another type list) against std::tuple: destination values, what is left in the source, copies and moves per member
+		c.tag("tuple-converting");
+		auto probe = [&](auto make_src, auto convert_move, auto convert_copy, auto src_vals, auto dst_vals, const char *what, int expect_src_after_move[3]) {
+			(void)expect_src_after_move;
+			{ auto s1 = make_src(); uint64_t c0 = reg().copies, m0 = reg().moves; auto d1 = convert_move(s1); uint64_t copies = reg().copies - c0, moves = reg().moves - m0;
+			  auto dv = dst_vals(d1); auto sv = src_vals(s1);
+			  VCHECK(c, "C17", dv[0] == a && dv[1] == b && dv[2] == d, "%s: converting move construction yields (%d,%d,%d), expected (%d,%d,%d)", what, dv[0], dv[1], dv[2], a, b, d);
+			  VCHECK(c, "C17", sv[1] == -1 && sv[2] == -1, "%s: after converting move construction the source members hold (%d,%d): they were copied, std::tuple moves every member (moved-from is -1)", what, sv[1], sv[2]);
+			  VCHECK(c, "C17", copies == 0, "%s: converting move construction made %llu copies and %llu moves of the members, std::tuple makes no copy", what, (unsigned long long)copies, (unsigned long long)moves); }
+			{ auto s2 = make_src(); uint64_t m0 = reg().moves; auto d2 = convert_copy(s2); uint64_t moves = reg().moves - m0;
+			  auto dv = dst_vals(d2); auto sv = src_vals(s2);
+			  VCHECK(c, "C17", dv[0] == a && dv[1] == b && dv[2] == d && sv[1] == b && sv[2] == d && moves == 0, "%s: converting copy construction yields (%d,%d,%d), leaves (%d,%d) in the source and moved %llu members", what, dv[0], dv[1], dv[2], sv[1], sv[2], (unsigned long long)moves); }
+		};
+		int dummy[3] = {0, -1, -1};
+		using FS = frg::tuple<int, Tracked, Tracked>; using FD = frg::tuple<long, Tracked, Tracked>;
+		using SS = std::tuple<int, Tracked, Tracked>; using SD = std::tuple<long, Tracked, Tracked>;
+		probe([&] { return FS(a, Tracked(b), Tracked(d)); }, [](FS &s1) { return FD(std::move(s1)); }, [](FS &s1) { return FD(s1); },
+			[](FS &x) { return std::array<int, 3>{x.get<0>(), x.get<1>().get(), x.get<2>().get()}; }, [](FD &x) { return std::array<int, 3>{(int)x.get<0>(), x.get<1>().get(), x.get<2>().get()}; }, "frg::tuple<int,T,T> -> tuple<long,T,T>", dummy);
+		probe([&] { return SS(a, Tracked(b), Tracked(d)); }, [](SS &s1) { return SD(std::move(s1)); }, [](SS &s1) { return SD(s1); },
+			[](SS &x) { return std::array<int, 3>{std::get<0>(x), std::get<1>(x).get(), std::get<2>(x).get()}; }, [](SD &x) { return std::array<int, 3>{(int)std::get<0>(x), std::get<1>(x).get(), std::get<2>(x).get()}; }, "std::tuple (the reference itself)", dummy);
+		// a tuple of references converted to a tuple of values: the referents are copied, also from an rvalue tuple (std::forward<T&> yields an lvalue)
+		{ Tracked *r1 = c.make<Tracked>(b), *r2 = c.make<Tracked>(d);
+		  frg::tuple<int, Tracked &, Tracked &> refs(a, *r1, *r2);
+		  frg::tuple<long, Tracked, Tracked> vals(std::move(refs));
+		  VCHECK(c, "C17", vals.get<1>().get() == b && vals.get<2>().get() == d, "tuple<int,T&,T&> -> tuple<long,T,T>: values (%d,%d)", vals.get<1>().get(), vals.get<2>().get());
+		  VCHECK(c, "C17", r1->get() == b && r2->get() == d, "tuple<int,T&,T&> && -> tuple<long,T,T> moved from the objects the references refer to (they now hold %d,%d); std::tuple copies them", r1->get(), r2->get());
+		  // apply on an rvalue tuple of references passes the referents as lvalues (a by-value parameter copies them)
+		  frg::tuple<Tracked &, Tracked &> refs2(*r1, *r2);
+		  int sum = frg::apply([](Tracked x, Tracked y) { return x.get() + y.get(); }, std::move(refs2));
+		  VCHECK(c, "C17", sum == b + d && r1->get() == b && r2->get() == d, "apply(f, tuple<T&,T&>&&) moved from the objects the references refer to (they now hold %d,%d; sum %d); std::apply passes them as lvalues", r1->get(), r2->get(), sum);
+		  c.destroy(r2); c.destroy(r1); }
+		break; }
 	}
 	c.check_san("C17");
 	VTRACK_END(c);
@@ -452,7 +487,11 @@ void run_tuple(Ctx &c) {
 // ------------------------------------------------------------------------------------------
 // Value-holder batteries over element types the histories above do not use.
 struct Big { uint64_t w[4]; };
-struct Pod { int x; long y; };      // defaulted constructor, members without initialisers
+struct Pod { int x; long y; };
+// user-provided copy constructor, implicit (trivial) copy assignment and destructor
+std::set<const void *> g_stamp_made;
+struct Stamp { int v; Stamp(int x) : v(x) { g_stamp_made.insert(this); } Stamp(const Stamp &o) : v(o.v) { g_stamp_made.insert(this); } Stamp &operator=(const Stamp &) = default; };
+static_assert(std::is_trivially_copy_assignable_v<Stamp> && std::is_trivially_destructible_v<Stamp> && !std::is_trivially_copy_constructible_v<Stamp>);      // defaulted constructor, members without initialisers
 struct alignas(32) Wide { unsigned char b[32]; };
 struct ChainNode;
 using ChainLink = frg::expected<Err, ChainNode>;
@@ -466,7 +505,7 @@ struct ChainNode {
 
 void run_extra(Ctx &c) {
 	auto &t = c.t;
-	unsigned which = t.pick(6);
+	unsigned which = t.pick(8);
 	int a = 1 + (int)t.pick(6), b = 1 + (int)t.pick(100), d = (int)t.pick(100);
 	c.op("extra battery %u with (%d,%d,%d)", which, a, b, d);
 	c.tagf("extra-%u", which);
@@ -568,6 +607,52 @@ void run_extra(Ctx &c) {
 		*v = nz; v->emplace<int>();
 		VCHECK(c, "C17", v->get<int>() == 0, "variant<pod,int>: emplace<int>() over %d holds %d", nz, v->get<int>());
 		c.destroy(v); c.destroy(o);
+		break; }
+	case 6: {   // optional<bool>: every way to copy/move an optional, from const and non-const lvalues, in every state, against std::optional
+		c.tag("optional-bool-copies");
+		for(int st = 0; st < 3; st++) {
+			frg::optional<bool> src; std::optional<bool> rsrc;
+			if(st == 1) { src = frg::optional<bool>(false); rsrc = false; } else if(st == 2) { src = frg::optional<bool>(true); rsrc = true; }
+			const frg::optional<bool> csrc(src);
+			auto same = [&](const frg::optional<bool> &o, const char *how) {
+				VCHECK(c, "C17", o.has_value() == rsrc.has_value() && (!rsrc || *o == *rsrc), "optional<bool>: %s of %s yields %s, std::optional yields %s", how,
+					st == 0 ? "an empty optional" : st == 1 ? "optional(false)" : "optional(true)", !o.has_value() ? "empty" : *o ? "true" : "false", !rsrc ? "empty" : *rsrc ? "true" : "false"); };
+			same(csrc, "copy construction from a non-const lvalue (into a const object)");
+			{ frg::optional<bool> x(src); same(x, "copy construction from a non-const lvalue"); }
+			{ frg::optional<bool> x(csrc); same(x, "copy construction from a const lvalue"); }
+			{ frg::optional<bool> x = src; same(x, "copy initialisation from a non-const lvalue"); }
+			{ frg::optional<bool> t2(src); frg::optional<bool> x(std::move(t2)); same(x, "move construction"); }
+			{ frg::optional<bool> x; x = src; same(x, "copy assignment from a non-const lvalue"); }
+			{ frg::optional<bool> x(true); x = csrc; same(x, "copy assignment from a const lvalue over an engaged optional"); }
+			{ frg::optional<bool> t2(src); frg::optional<bool> x; x = std::move(t2); same(x, "move assignment"); }
+		}
+		// the same for a type that is constructible from bool and from int
+		for(int st = 0; st < 2; st++) {
+			frg::optional<long> src; std::optional<long> rsrc; if(st) { src = frg::optional<long>(a | 2L); rsrc = a | 2L; }
+			frg::optional<long> x(src), y = src; frg::optional<long> z; z = src;
+			VCHECK(c, "C17", x.has_value() == rsrc.has_value() && y.has_value() == rsrc.has_value() && z.has_value() == rsrc.has_value() && (!rsrc || (*x == *rsrc && *y == *rsrc && *z == *rsrc)), "optional<long>: copies of a non-const lvalue differ from std::optional");
+		}
+		break; }
+	case 7: {   // a type with a user-provided copy constructor but trivial assignment and destructor: wherever the standard type
+	            // has to CONSTRUCT the value (destination empty / other alternative), a constructor must have run at that address
+		c.tag("stamp-constructed");
+		g_stamp_made.clear();
+		{ frg::optional<Stamp> *src = c.make<frg::optional<Stamp>>(Stamp(a)); frg::optional<Stamp> *dst = c.make<frg::optional<Stamp>>();
+		  *dst = *src;
+		  VCHECK(c, "C17", dst->has_value() && (*dst)->v == a && g_stamp_made.count(&**dst), "optional<stamp>: copy assignment into an empty optional did not construct the value (no constructor ran at its address)");
+		  frg::optional<Stamp> *dst2 = c.make<frg::optional<Stamp>>(); *dst2 = std::move(*src);
+		  VCHECK(c, "C17", dst2->has_value() && (*dst2)->v == a && g_stamp_made.count(&**dst2), "optional<stamp>: move assignment into an empty optional did not construct the value");
+		  frg::optional<Stamp> *cc = c.make<frg::optional<Stamp>>(*dst); VCHECK(c, "C17", cc->has_value() && g_stamp_made.count(&**cc), "optional<stamp>: copy construction did not construct the value");
+		  c.destroy(cc); c.destroy(dst2); c.destroy(dst); c.destroy(src); }
+		{ using VS = frg::variant<int, Stamp>; VS *src = c.make<VS>(Stamp(b)); VS *dst = c.make<VS>(5); VS *dst2 = c.make<VS>();
+		  *dst = *src; *dst2 = *src;
+		  VCHECK(c, "C17", dst->is<Stamp>() && dst->get<Stamp>().v == b && g_stamp_made.count(&dst->get<Stamp>()), "variant<int,stamp>: assignment over another alternative did not construct the value");
+		  VCHECK(c, "C17", dst2->is<Stamp>() && g_stamp_made.count(&dst2->get<Stamp>()), "variant<int,stamp>: assignment into an empty variant did not construct the value");
+		  c.destroy(dst2); c.destroy(dst); c.destroy(src); }
+		{ enum class E2 { ok = 0, bad }; using XS = frg::expected<E2, Stamp>; XS *src = c.make<XS>(Stamp(d)); XS *dst = c.make<XS>(E2::bad);
+		  *dst = *src;
+		  VCHECK(c, "C17", (bool)*dst && dst->value().v == d && g_stamp_made.count(&dst->value()), "expected<E,stamp>: assignment over an error did not construct the value");
+		  c.destroy(dst); c.destroy(src); }
 		break; }
 	}
 	c.check_san("C17");
